@@ -668,24 +668,4 @@ theorem call_run (f : VarSpec) (a : Unary N) (as : List (Unary N)) (c : Choices 
       simp [map_run, parseStatementStartingWithWord, bind_run, hx, current_run, asVariableName, hfc, pure_run]
     · simp only [eraseS, SimpleStmt.toStmt, eraseL, unary_shape a (c.sub 2), args_shape as (c.sub 3)]
 
-/-- **all one-line statements** -/
-theorem simple_run (s : SimpleStmt N) (c : Choices N) (n : Nat) (rest : List (Tok N)) (src last eof)
-    (hw : s.wf = true) (hn : (s.toks c).length ≤ n) (hs : s.Stop rest) (hsane : c.Sane src) :
-    SRuns s c n rest src last eof := by
-  cases s with
-  | say e => exact say_run e c n rest src last eof hw hn hs
-  | put e t => exact put_run e t c n rest src last eof hw hn hs
-  | letBe t op l => exact let_run t op l c n rest src last eof hw hn hs
-  | build x m => exact build_run x m c n rest src last eof hw hn hs
-  | knock x m => exact knock_run x m c n rest src last eof hw hn hs
-  | listen t => exact listen_run t c n rest src last eof hw hn hs hsane
-  | turn d e => exact turn_run d e c n rest src last eof hw hn hs
-  | rock p vals => exact rock_run p vals c n rest src last eof hw hn hs
-  | roll p into => exact roll_run p into c n rest src last eof hw hn hs
-  | ret kw e => exact ret_run kw e c n rest src last eof hw hn hs
-  | break_ it => exact break_run it c n rest src last eof hw hs
-  | continue_ itThe => exact continue_run itThe c n rest src last eof hw
-  | mutation op p into param => exact mutation_run op p into param c n rest src last eof hw hn hs
-  | call f a as => exact call_run f a as c n rest src last eof hw hn hs
-
 end Grammar
